@@ -20,7 +20,10 @@ pub struct C38;
 pub static P: C38 = C38;
 
 /// scenario kinds of the workload
-const KINDS: &[&str] = &["attr", "view", "subs", "nodes", "method", "two", "drop", "restart"];
+const KINDS: &[&str] = &[
+    "attr", "view", "subs", "nodes", "method", "two", "drop", "history", "items", "discovery", "transfer", "races", "close-race",
+    "reconnect", "restart",
+];
 
 struct Running {
     server: Arc<RwLock<Server>>,
@@ -43,14 +46,25 @@ fn world() -> &'static World {
     })
 }
 
+/// scratch directory that survives the process (key pairs are expensive to generate)
+fn stable_dir(name: &str) -> std::path::PathBuf {
+    let p = fixtures::scratch_dir().parent().map(|p| p.to_path_buf()).unwrap_or_else(fixtures::scratch_dir).join(name);
+    let _ = std::fs::create_dir_all(&p);
+    p
+}
+
 fn free_port() -> u16 {
     let l = std::net::TcpListener::bind("127.0.0.1:0").expect("bind");
     l.local_addr().unwrap().port()
 }
 
 fn start_server(w: &World) -> Running {
-    let port = free_port();
-    let pki = fixtures::scratch_dir().join(format!("c38-pki-{}", port));
+    start_server_on(w, free_port())
+}
+
+fn start_server_on(w: &World, port: u16) -> Running {
+    // a stable directory: the server's sample key pair is generated once, not at every start
+    let pki = stable_dir("c38-server-pki");
     let server = ServerBuilder::new_sample()
         .application_name("verif")
         .host_and_port("127.0.0.1", port)
@@ -76,6 +90,9 @@ fn start_server(w: &World) -> Running {
             .collect();
         let _ = address_space.add_variables(vars, &folder);
     }
+    let mut server = server;
+    // a polling action, as applications register them (server/util PollingAction)
+    server.add_polling_action(40, || {});
     let server = Arc::new(RwLock::new(server));
     let task = w.server_rt.spawn(Server::new_server_task(server.clone()));
     // wait until it listens
@@ -138,6 +155,13 @@ async fn connect(port: u16, name: &str) -> Result<(Arc<Session>, tokio::task::Jo
     }
 }
 
+/// waits briefly for a session event loop to end after `disconnect`, then stops it
+async fn finish(mut h: tokio::task::JoinHandle<StatusCode>) {
+    if tokio::time::timeout(Duration::from_millis(400), &mut h).await.is_err() {
+        h.abort();
+    }
+}
+
 fn var(i: u32) -> NodeId {
     NodeId::new(2, format!("v{}", i))
 }
@@ -188,6 +212,9 @@ async fn view_ops(s: &Session) -> Result<(), StatusCode> {
         },
     };
     s.translate_browse_paths_to_node_ids(&[path]).await?;
+    // the client asks for 1000 references per node, so a real continuation point never occurs: BrowseNext
+    // with a stale one still goes through the service's locking
+    let _ = s.browse_next(true, &[ByteString::from(vec![1u8, 2, 3, 4])]).await;
     let nodes = s.register_nodes(&[var(0), var(1)]).await?;
     let _ = s.unregister_nodes(&nodes).await;
     Ok(())
@@ -277,10 +304,310 @@ async fn method_ops(s: &Session) -> Result<(), StatusCode> {
     Ok(())
 }
 
+async fn history_ops(s: &Session) -> Result<(), StatusCode> {
+    use opcua::verif_hooks::client::{HistoryReadAction, HistoryUpdateAction};
+    let details = ReadRawModifiedDetails {
+        is_read_modified: false,
+        start_time: DateTime::now(),
+        end_time: DateTime::now(),
+        num_values_per_node: 10,
+        return_bounds: false,
+    };
+    let nodes = vec![HistoryReadValueId {
+        node_id: var(0),
+        index_range: UAString::null(),
+        data_encoding: QualifiedName::null(),
+        continuation_point: ByteString::null(),
+    }];
+    let _ = s
+        .history_read(HistoryReadAction::ReadRawModifiedDetails(details), TimestampsToReturn::Both, false, &nodes)
+        .await;
+    let upd = UpdateDataDetails {
+        node_id: var(0),
+        perform_insert_replace: PerformUpdateType::Insert,
+        update_values: Some(vec![DataValue::value_only(Variant::Int32(1))]),
+    };
+    let _ = s.history_update(&[HistoryUpdateAction::UpdateDataDetails(upd)]).await;
+    let _ = s.cancel(1).await;
+    Ok(())
+}
+
+/// ModifyMonitoredItems, SetMonitoringMode, SetTriggering, Republish-free parts of the MonitoredItem service set,
+/// the ResendData method, DeleteReferences
+async fn items_ops(s: &Session) -> Result<(), StatusCode> {
+    let sub = s
+        .create_subscription(Duration::from_millis(50), 30, 5, 0, 0, true, DataChangeCallback::new(|_, _| {}))
+        .await?;
+    let created = s
+        .create_monitored_items(sub, TimestampsToReturn::Both, vec![var(0).into(), var(1).into(), var(2).into()])
+        .await?;
+    let ids: Vec<u32> = created.iter().map(|c| c.monitored_item_id).collect();
+    if ids.len() == 3 {
+        let m = MonitoredItemModifyRequest {
+            monitored_item_id: ids[0],
+            requested_parameters: MonitoringParameters {
+                client_handle: 1,
+                sampling_interval: 20.0,
+                filter: ExtensionObject::null(),
+                queue_size: 3,
+                discard_oldest: false,
+            },
+        };
+        let _ = s.modify_monitored_items(sub, TimestampsToReturn::Both, &[m]).await;
+        let _ = s.set_monitoring_mode(sub, MonitoringMode::Sampling, &ids[1..]).await;
+        let _ = s.set_triggering(sub, ids[0], &ids[1..], &[]).await;
+        let _ = s.set_triggering(sub, ids[0], &[], &ids[1..2]).await;
+        let _ = s.set_monitoring_mode(sub, MonitoringMode::Disabled, &ids[2..]).await;
+        let _ = s.set_monitoring_mode(sub, MonitoringMode::Reporting, &ids).await;
+    }
+    let w = WriteValue {
+        node_id: var(0),
+        attribute_id: AttributeId::Value as u32,
+        index_range: UAString::null(),
+        value: DataValue::value_only(Variant::Int32(55)),
+    };
+    let _ = s.write(&[w]).await;
+    tokio::time::sleep(Duration::from_millis(120)).await;
+    // Server.ResendData(subscriptionId) and GetMonitoredItems for a subscription that does not exist
+    let resend = CallMethodRequest {
+        object_id: ObjectId::Server.into(),
+        method_id: MethodId::Server_ResendData.into(),
+        input_arguments: Some(vec![Variant::UInt32(sub)]),
+    };
+    let _ = s.call(resend).await;
+    let _ = s.call_get_monitored_items(sub + 1000).await;
+    let _ = s
+        .delete_references(&[DeleteReferencesItem {
+            source_node_id: ObjectId::ObjectsFolder.into(),
+            reference_type_id: ReferenceTypeId::Organizes.into(),
+            is_forward: true,
+            target_node_id: var(3).into(),
+            delete_bidirectional: true,
+        }])
+        .await;
+    let _ = s.delete_subscription(sub).await;
+    Ok(())
+}
+
+/// the discovery service set through the client's own short-lived connections
+async fn discovery_ops(port: u16) -> bool {
+    let pki = stable_dir("c38-client-pki-disc");
+    let Some(mut client) = ClientBuilder::new()
+        .application_name("disc")
+        .application_uri("urn:disc")
+        .pki_dir(pki)
+        // register_server picks the most secure endpoint: without an own certificate the client panics
+        // (secure_channel.rs make_security_header unwrap) — not this property's subject
+        .create_sample_keypair(true)
+        .trust_server_certs(true)
+        .session_retry_limit(0)
+        .client()
+    else {
+        return false;
+    };
+    let url = format!("opc.tcp://127.0.0.1:{}/", port);
+    // a session over a signed and encrypted channel: CreateSession validates the client certificate
+    let endpoint: EndpointDescription =
+        (url.as_str(), "Basic256Sha256", MessageSecurityMode::SignAndEncrypt, UserTokenPolicy::anonymous()).into();
+    if let Ok((session, event_loop)) = client.new_session_from_info((endpoint, IdentityToken::Anonymous)) {
+        let handle = event_loop.spawn();
+        if matches!(tokio::time::timeout(Duration::from_secs(10), session.wait_for_connection()).await, Ok(true)) {
+            let _ = attr_ops(&session).await;
+            let _ = session.disconnect().await;
+        }
+        finish(handle).await;
+    }
+    let a = client.get_server_endpoints_from_url(url.clone()).await.is_ok();
+    let b = client.find_servers(url.clone()).await.is_ok();
+    let _ = client
+        .register_server(
+            url,
+            RegisteredServer {
+                server_uri: UAString::from("urn:other"),
+                product_uri: UAString::from("urn:other"),
+                server_names: Some(vec![LocalizedText::from("other")]),
+                server_type: ApplicationType::Server,
+                gateway_server_uri: UAString::null(),
+                discovery_urls: Some(vec![UAString::from("opc.tcp://127.0.0.1:1/")]),
+                semaphore_file_path: UAString::null(),
+                is_online: true,
+            },
+        )
+        .await;
+    a && b
+}
+
+/// TransferSubscriptions: a second session asks for the first one's subscription while it is publishing
+async fn transfer_ops(port: u16, s: &Session) -> Result<(), StatusCode> {
+    let sub = s
+        .create_subscription(Duration::from_millis(50), 30, 5, 0, 0, true, DataChangeCallback::new(|_, _| {}))
+        .await?;
+    let _ = s.create_monitored_items(sub, TimestampsToReturn::Both, vec![var(0).into()]).await;
+    if let Ok((s2, h2)) = connect(port, "second").await {
+        let _ = s2.transfer_subscriptions(&[sub, sub + 77], true).await;
+        let _ = s2.transfer_subscriptions(&[sub], false).await;
+        let _ = s2.disconnect().await;
+        finish(h2).await;
+    }
+    tokio::time::sleep(Duration::from_millis(100)).await;
+    let _ = s.delete_subscriptions(&[sub]).await;
+    Ok(())
+}
+
+/// ModifySubscription / SetPublishingMode / monitored item changes racing with publishing and with another connection
+async fn races_ops(port: u16, s: &Session) -> Result<(), StatusCode> {
+    let sub = s
+        .create_subscription(Duration::from_millis(40), 30, 5, 0, 0, true, DataChangeCallback::new(|_, _| {}))
+        .await?;
+    let created = s
+        .create_monitored_items(sub, TimestampsToReturn::Both, vec![var(0).into(), var(1).into()])
+        .await?;
+    let ids: Vec<u32> = created.iter().map(|c| c.monitored_item_id).collect();
+    let other = connect(port, "second").await;
+    let writer = async {
+        if let Ok((s2, _)) = &other {
+            for i in 0..10 {
+                let w = WriteValue {
+                    node_id: var((i % 2) as u32),
+                    attribute_id: AttributeId::Value as u32,
+                    index_range: UAString::null(),
+                    value: DataValue::value_only(Variant::Int32(1000 + i)),
+                };
+                let _ = s2.write(&[w]).await;
+                let _ = attr_ops(s2).await;
+                let _ = s2.call_get_monitored_items(sub).await;
+                tokio::time::sleep(Duration::from_millis(15)).await;
+            }
+        }
+    };
+    let modifier = async {
+        for i in 0..6u32 {
+            let _ = s.modify_subscription(sub, 30.0 + i as f64 * 10.0, 30, 5, 0, (i % 3) as u8).await;
+            let _ = s.set_publishing_mode(&[sub], i % 2 == 0).await;
+            if let Some(id) = ids.first() {
+                let _ = s.set_monitoring_mode(sub, if i % 2 == 0 { MonitoringMode::Sampling } else { MonitoringMode::Reporting }, &[*id]).await;
+            }
+            tokio::time::sleep(Duration::from_millis(20)).await;
+        }
+        let _ = s.set_publishing_mode(&[sub], true).await;
+    };
+    tokio::join!(writer, modifier);
+    if let Ok((s2, h2)) = other {
+        let _ = s2.disconnect().await;
+        finish(h2).await;
+    }
+    let _ = s.delete_subscription(sub).await;
+    Ok(())
+}
+
+/// CloseSession of one connection while another one is in the middle of service calls and publishing
+async fn close_race_ops(port: u16, s: &Session) -> Result<(), StatusCode> {
+    let sub = s
+        .create_subscription(Duration::from_millis(40), 30, 5, 0, 0, true, DataChangeCallback::new(|_, _| {}))
+        .await?;
+    let _ = s.create_monitored_items(sub, TimestampsToReturn::Both, vec![var(1).into()]).await;
+    let mut others = Vec::new();
+    for n in ["second", "third"] {
+        if let Ok(x) = connect(port, n).await {
+            let _ = x
+                .0
+                .create_subscription(Duration::from_millis(40), 30, 5, 0, 0, true, DataChangeCallback::new(|_, _| {}))
+                .await;
+            others.push(x);
+        }
+    }
+    let busy = async {
+        for _ in 0..4 {
+            let _ = view_ops(s).await;
+            let _ = attr_ops(s).await;
+        }
+    };
+    let closing = async {
+        for (s2, h2) in others {
+            tokio::time::sleep(Duration::from_millis(25)).await;
+            // CloseSession with live subscriptions, then CloseSecureChannel
+            let _ = s2.disconnect().await;
+            finish(h2).await;
+        }
+    };
+    tokio::join!(busy, closing);
+    let _ = s.delete_subscription(sub).await;
+    Ok(())
+}
+
+/// the server goes away and comes back on the same port while a client with a retry policy holds a session with
+/// a subscription: the client re-opens a channel, tries ActivateSession for its old session on the new channel,
+/// falls back to CreateSession, TransferSubscriptions and re-creating its subscriptions
+fn reconnect_scenario(tag: u32) -> bool {
+    let port = ensure_server();
+    let w = world();
+    let connected = w.client_rt.block_on(async move {
+        let pki = fixtures::scratch_dir().join("c38-client-pki-re");
+        let mut client = ClientBuilder::new()
+            .application_name("re")
+            .application_uri("urn:re")
+            .pki_dir(pki)
+            .create_sample_keypair(false)
+            .trust_server_certs(true)
+            .session_retry_limit(20)
+            .session_retry_initial(Duration::from_millis(50))
+            .session_retry_max(Duration::from_millis(200))
+            .client()?;
+        let url = format!("opc.tcp://127.0.0.1:{}/", port);
+        let endpoint: EndpointDescription = (url.as_str(), "None", MessageSecurityMode::None, UserTokenPolicy::anonymous()).into();
+        let (session, event_loop) = client.new_session_from_info((endpoint, IdentityToken::Anonymous)).ok()?;
+        let handle = event_loop.spawn();
+        if !matches!(tokio::time::timeout(Duration::from_secs(15), session.wait_for_connection()).await, Ok(true)) {
+            handle.abort();
+            return None;
+        }
+        let sub = session
+            .create_subscription(Duration::from_millis(50), 30, 5, 0, 0, true, DataChangeCallback::new(|_, _| {}))
+            .await
+            .ok()?;
+        let _ = session.create_monitored_items(sub, TimestampsToReturn::Both, vec![var(0).into()]).await;
+        Some((session, handle))
+    });
+    let Some((session, handle)) = connected else {
+        return false;
+    };
+    let _ = tag;
+    // same port, new server
+    let restarted = {
+        let mut r = w.running.lock().unwrap();
+        let mut ok = true;
+        if let Some(run) = r.take() {
+            run.server.write().abort();
+            ok = w.client_rt.block_on(async { tokio::time::timeout(Duration::from_secs(20), run.task).await.is_ok() });
+        }
+        *r = Some(start_server_on(w, port));
+        ok
+    };
+    let back = w.client_rt.block_on(async move {
+        // the session event loop reconnects on its own
+        let mut ok = false;
+        for _ in 0..100 {
+            tokio::time::sleep(Duration::from_millis(100)).await;
+            if attr_ops(&session).await.is_ok() {
+                ok = true;
+                break;
+            }
+        }
+        tokio::time::sleep(Duration::from_millis(200)).await;
+        let _ = session.disconnect().await;
+        finish(handle).await;
+        ok
+    });
+    restarted && back
+}
+
 /// one scenario; returns whether it ran to its end
 fn run_scenario(kind: &str, tag: u32) -> bool {
     if kind == "restart" {
         return restart_server();
+    }
+    if kind == "reconnect" {
+        return reconnect_scenario(tag);
     }
     let port = ensure_server();
     let w = world();
@@ -303,6 +630,12 @@ fn run_scenario(kind: &str, tag: u32) -> bool {
                     r.is_ok()
                 }
                 "method" => method_ops(&s).await.is_ok(),
+                "history" => history_ops(&s).await.is_ok(),
+                "items" => items_ops(&s).await.is_ok(),
+                "discovery" => discovery_ops(port).await,
+                "transfer" => transfer_ops(port, &s).await.is_ok(),
+                "races" => races_ops(port, &s).await.is_ok(),
+                "close-race" => close_race_ops(port, &s).await.is_ok(),
                 "two" => {
                     // a second connection working at the same time
                     match connect(port, "second").await {
@@ -314,7 +647,7 @@ fn run_scenario(kind: &str, tag: u32) -> bool {
                                 r1.and(r2).and(r3)
                             });
                             let _ = s2.disconnect().await;
-                            let _ = tokio::time::timeout(Duration::from_secs(5), h2).await;
+                            finish(h2).await;
                             a.is_ok() && b.is_ok()
                         }
                         Err(_) => false,
@@ -335,7 +668,7 @@ fn run_scenario(kind: &str, tag: u32) -> bool {
                 _ => false,
             };
             let _ = s.disconnect().await;
-            let _ = tokio::time::timeout(Duration::from_secs(5), handle).await;
+            finish(handle).await;
             // give the server's connection tasks time to wind down
             tokio::time::sleep(Duration::from_millis(150)).await;
             ok
@@ -354,8 +687,33 @@ fn unhexs(s: &str) -> String {
 
 /// the observed nesting graph (different lock objects or different classes; re-entrant read of the
 /// same object is reported separately)
+/// what the canonical workload showed when the translator ran it with this very binary a moment ago
+/// (`# edge …` lines of `harness gen C38 1 0 quick`, saved by tools/translate/lockedges.py)
+fn recorded_edges() -> &'static Vec<(String, String)> {
+    static E: OnceLock<Vec<(String, String)>> = OnceLock::new();
+    E.get_or_init(|| {
+        let path = format!("{}/target/c38-observed.txt", env!("CARGO_MANIFEST_DIR"));
+        let mut v = Vec::new();
+        if let Ok(txt) = std::fs::read_to_string(path) {
+            for l in txt.lines() {
+                if let Some(rest) = l.strip_prefix("# edge ") {
+                    if let Some((h, tail)) = rest.split_once(" -> ") {
+                        if let Some((a, _)) = tail.split_once(" same_instance=") {
+                            v.push((h.to_string(), a.to_string()));
+                        }
+                    }
+                }
+            }
+        }
+        v
+    })
+}
+
 fn graph() -> BTreeMap<String, BTreeSet<String>> {
     let mut g: BTreeMap<String, BTreeSet<String>> = BTreeMap::new();
+    for (h, a) in recorded_edges() {
+        g.entry(h.clone()).or_default().insert(a.clone());
+    }
     for (e, _) in lt::edges() {
         g.entry(e.held.to_string()).or_default().insert(e.acquired.to_string());
     }
@@ -463,47 +821,58 @@ impl Prop for C38 {
     }
 
     fn gen(&self, rng: &mut Rng, n: usize, tier: Tier, out: &mut Vec<String>) {
-        // the canonical workload is executed here, in the generating process: what it observes becomes
-        // `edge` ops that both sides must answer alike
-        lt::reset();
-        out.push("reset".to_string());
-        let mut complete = true;
-        let rounds = if tier == Tier::Thorough { 3 } else { 1 };
-        let mut tag = 0;
-        for _ in 0..rounds {
-            for k in KINDS {
-                tag += 1;
-                out.push(format!("work {} {}", k, tag));
-                let ok = run_scenario(k, tag);
-                if !ok {
-                    eprintln!("C38 workload: scenario {} {} did not run to its end", k, tag);
-                }
-                complete &= ok;
-            }
-        }
-        // `n == 0` is how the translator asks: the op stream is then annotated (comment lines are not ops)
+        // `n == 0` is how the translator asks: the canonical workload is executed here, in the generating
+        // process, and the op stream is annotated (comment lines are not ops).  Otherwise the nestings the
+        // translator recorded with this binary are turned into `edge` ops that both sides must answer alike
+        // (the workload is run here only if there is no record).
         let describe = n == 0;
-        for (e, i) in lt::edges() {
-            out.push(format!("edge {} {}", hexs(e.held), hexs(e.acquired)));
+        out.push("reset".to_string());
+        let mut tag = 0;
+        if describe || recorded_edges().is_empty() {
+            lt::reset();
+            let mut complete = true;
+            let rounds = if tier == Tier::Thorough { 3 } else { 1 };
+            for _ in 0..rounds {
+                for k in KINDS {
+                    tag += 1;
+                    out.push(format!("work {} {}", k, tag));
+                    let t0 = std::time::Instant::now();
+                    let ok = run_scenario(k, tag);
+                    if describe {
+                        eprintln!("C38 workload: {} took {} ms", k, t0.elapsed().as_millis());
+                    }
+                    if !ok {
+                        eprintln!("C38 workload: scenario {} {} did not run to its end", k, tag);
+                    }
+                    complete &= ok;
+                }
+            }
+            for (e, i) in lt::edges() {
+                out.push(format!("edge {} {}", hexs(e.held), hexs(e.acquired)));
+                if describe {
+                    out.push(format!(
+                        "# edge {} -> {} same_instance={} held at {}({}) acquired at {}({}) x{}",
+                        e.held, e.acquired, e.same_instance, i.held_site, i.held_mode, i.site, i.mode, i.count
+                    ));
+                }
+            }
             if describe {
-                out.push(format!(
-                    "# edge {} -> {} same_instance={} held at {}({}) acquired at {}({}) x{}",
-                    e.held, e.acquired, e.same_instance, i.held_site, i.held_mode, i.site, i.mode, i.count
-                ));
+                for ((f, l), c) in lt::sites() {
+                    out.push(format!("# site {}:{} {}", f, l, c));
+                }
+                out.push(format!("# workload-complete {}", complete));
             }
-        }
-        if describe {
-            for ((f, l), c) in lt::sites() {
-                out.push(format!("# site {}:{} {}", f, l, c));
+        } else {
+            for (h, a) in recorded_edges() {
+                out.push(format!("edge {} {}", hexs(h), hexs(a)));
             }
-            out.push(format!("# workload-complete {}", complete));
         }
         // random shorter workloads
         for _ in 0..n {
             out.push("reset".to_string());
             for _ in 0..rng.range(1, 3) {
                 tag += 1;
-                out.push(format!("work {} {}", rng.pick(&KINDS[..7]), tag));
+                out.push(format!("work {} {}", rng.pick(&KINDS[..KINDS.len() - 2]), tag));
             }
         }
     }
